@@ -99,7 +99,7 @@ def scenario_from_hist(scn, tables, menu, hist, opts=None, probe_every=True, int
                 cmds += probes([cur[t.name] for t in tables], only=h["t"])
             continue
         if a == "ScanBegin":
-            cmds.append({"a": "ScanBegin", "t": h["t"], "mem": h["mem"], "pause": h["j"]})
+            cmds.append({"a": "ScanBegin", "t": h["t"], "mem": h["mem"], "pause": h["j"], "hold": bool(h.get("hold"))})
             continue
         if a == "ScanEnd":
             cmds.append({"a": "ScanEnd", "t": h["t"]})
@@ -943,29 +943,29 @@ def check_C18(args):
             n0, n1 = rng.randint(2, 6), rng.randint(1, 5)
             menu = random_menu(rng, n0 + n1, ticks=(1, 4), arrays=False, nonnumeric=False)
             t = rng.choice(tabs).name
-            h = [{"a": "Start"}]
-
-            def drive(i, tables_to_step):
-                out = [{"a": "Insert", "i": i}]
-                for tn in tables_to_step:
-                    out += [{"a": "Decide", "t": tn}, {"a": "Apply", "t": tn}]
-                return out
-
-            def flush(tn):
-                return [{"a": "FlushBegin", "t": tn}, {"a": "FlushTemp", "t": tn}, {"a": "FlushRename", "t": tn},
-                        {"a": "FlushSwap", "t": tn}]
-            both = [x.name for x in tabs]
-            for i in range(1, n0 + 1):
-                h += drive(i, both)
+            d = Directed(tabs, menu)
+            for i in range(n0):
+                d.insert_and_process()
                 if rng.random() < 0.2:
-                    h += flush(t)
-            h.append({"a": "ScanBegin", "t": t, "mem": True, "j": rng.randint(0, 3)})
-            for i in range(n0 + 1, n0 + n1 + 1):
-                h += drive(i, both)
-                if rng.random() < 0.25:
-                    h += flush(t)
-            h.append({"a": "ScanEnd", "t": t})
-            yield scenario_from_hist("C18-d%d" % di, tabs, menu, h, probe_every=False), tabs
+                    d.flush(t)
+            if di % 3 == 2 and d.dirty[t]:
+                # the flush's store swap falls between the scan taking its file
+                # store / memstore copy and opening the file
+                d.h += [{"a": "FlushBegin", "t": t}, {"a": "FlushTemp", "t": t}, {"a": "FlushRename", "t": t}]
+                d.h.append({"a": "ScanBegin", "t": t, "mem": True, "j": rng.randint(0, 3), "hold": True})
+                d.h.append({"a": "FlushSwap", "t": t})
+                d.dirty[t] = d.moved[t] = False
+                for i in range(n1):
+                    d.insert_and_process()
+                d.h.append({"a": "ScanEnd", "t": t})
+            else:
+                d.h.append({"a": "ScanBegin", "t": t, "mem": True, "j": rng.randint(0, 3), "hold": rng.random() < 0.3})
+                for i in range(n1):
+                    d.insert_and_process()
+                    if rng.random() < 0.25:
+                        d.flush(t)
+                d.h.append({"a": "ScanEnd", "t": t})
+            yield scenario_from_hist("C18-d%d" % di, tabs, menu, d.h, probe_every=False), tabs
 
     def extra_cov(scenarios, traces):
         held = racing = 0
